@@ -35,6 +35,7 @@ def run(ctx, sess):
     ctx.rule('C05.16', 'the reader of a repaired file returns the time-series entries a walk of the file finds: for every track kind whose index the repair does not rebuild, the reader starts at level 0 and follows the DATA chain (shared with C17.9)')
     ctx.rule('C05.17', 'item lists of a repaired file end where the file ends: for each list head the reader keeps from its first scan (user data, source definitions, signal definitions) the repairing branch of jls_rd_open calls, after the truncation and before anything is appended, a walk that follows item_next and clears it on the last chunk that can still be read and belongs to the list - a link that survives a lost tail names an offset at which the repair then writes an INDEX')
     ctx.rule('C05.18', 'the index tree reaches every chunk: at close every FSR summary level whose index holds entries is written, unless its single entry is the first chunk of the level below (shared with C01.g) - a pair that no level above names is in the file, passes every CRC and link check, and is invisible to the reader')
+    ctx.rule('C05.20', 'the tracked end of the file (fend) follows a truncation: raw.c decides append vs. in-place, and with it the payload_prev_length stamp, from fpos >= fend')
     ctx.rule('C05.19', 'the definitions recovered are the ones the data was laid out with: a refused definition changes nothing in the live definition (shared with C13.2)')
     ctx.rule('C05.14', 'the recorded file length equals the file size also when the writer stopped after END: jls_rd_open remembers that the file header came without its length (TRUNCATED) and, on the path on which the END chunk is found, tests that before it succeeds (and then writes the header through a writable close)')
     ctx.rule('C05.11', 'FSR summary chunks carry what their header announces: the payload length handed to the summary writer is header + entry_count x the entry size that was stored in entry_size_bits (4 x f32 or 4 x f64, chosen by data type), not the size of a fixed struct type')
@@ -50,6 +51,7 @@ def run(ctx, sess):
     r4(ctx, P)
     r5(ctx, P)
     r5b(ctx, P)
+    r5c(ctx, P)
     r11(ctx, P)
     r12(ctx, P)
     r14(ctx, P)
@@ -393,6 +395,25 @@ def r5(ctx, P):
         if strip_casts(lhs).get('field') == 'payload_prev_length' and rhs is not None and h.path(strip_casts(rhs)) is not None and h.path(strip_casts(rhs)).last_field() == 'last_payload_length':
             ok = True
     ctx.ob('C05.5', ok, h.name, 'payload_prev_length = last_payload_length', h.where(), '')
+
+
+def r5c(ctx, P):
+    """the tracked end of the file follows a truncation: raw.c decides append vs. in-place (and with it the
+    payload_prev_length stamp and last_payload_length) from fpos >= fend"""
+    f = P.fn('jls_bk_truncate')
+    ctx.saw(f)
+    n = 0
+    for ev in f.stores():
+        lhs, rhs, o = ev.store_parts()
+        l0 = strip_casts(lhs)
+        if l0.get('op') == 'member' and l0.get('field') == 'fend' and rhs is not None:
+            rp = f.path(strip_casts(rhs))
+            if rp is not None and rp.last_field() == 'fpos':
+                # unconditional, or conditional only on comparisons (fend vs. fpos; the error return of the system call)
+                n += 1
+    ctx.ob('C05.20', n >= 1, f.name, 'fend is lowered to fpos after the file was cut there', f.where(),
+           'fend = fpos present' if n else
+           'after the truncation the tracked end still names the old length: the chunks the repair appends are taken for in-place rewrites (fpos < fend), payload_prev_length is not stamped and last_payload_length not updated, so the backward chain from END lands inside a chunk')
 
 
 def r5b(ctx, P):
